@@ -2,7 +2,7 @@
    Statements only; proofs live in SMP/. *)
 From Coq Require Import List ZArith Bool.
 From JSL Require Import Base.Res SM.Types SM.Util SM.Handler SM.Step SM.Middleware SM.Inv SM.Example
-  SMP.Reflect SMP.StepInv SMP.Main SMP.Clock SMP.FeasStep SMP.Agv SMP.LiftSide SMP.OutputDone SMP.LiftProv SMP.ProvBatch SMP.Claims.
+  SMP.Reflect SMP.StepInv SMP.Main SMP.Clock SMP.FeasStep SMP.Agv SMP.LiftSide SMP.OutputDone SMP.LiftProv SMP.ProvBatch SMP.Claims SMP.Hold.
 Import ListNotations.
 
 (* Every job is stored exactly once, every stored number is a job (placement_b), each job's location
@@ -60,6 +60,17 @@ Theorem C03_machine_holds_one_flex :
     reach sigma i fuel x0 joker0 ta r m -> mach_hold_b (r_x r) = true.
 Proof. intros sigma i fuel x0 joker0 ta r m Hnn Hf C W Fr D H. eapply flex_reachable; eauto. Qed.
 Print Assumptions C03_machine_holds_one_flex.
+
+(* "an idle AGV holds and claims nothing; an AGV holds at most one job, and only its claim" (agv_hold_b) in every state of
+   every run, for instances whose machine post-buffers are unordered or of capacity one (SMP/Hold.v: the job an AGV takes
+   is its claim - derived, not assumed - nothing else puts a job on an AGV, and the claim is dropped with the job) *)
+Theorem C03_agv_holds_only_its_claim_flex :
+  forall (sigma : oracle) (i : inst) (fuel : nat) (x0 : state) (joker0 : Z) (ta : bool) (r : result) (m : mw),
+    inst_nonneg_b i = true -> flex_post_b i = true ->
+    clock_b x0 = true -> wfs_b i x0 = true -> fresh2_b i x0 = true -> nodep_b x0 = true ->
+    reach sigma i fuel x0 joker0 ta r m -> agv_hold_b (r_x r) = true.
+Proof. intros sigma i fuel x0 joker0 ta r m Hnn Hf. apply flex_agv_hold; auto. Qed.
+Print Assumptions C03_agv_holds_only_its_claim_flex.
 
 (* "an AGV holds what the state says it holds": exactly one job while in TRANSIT, none in any other phase
    (agv_load_b) - after every applied transition, in every reachable state and every micro-state, for every
